@@ -30,10 +30,23 @@ func nlvProject(n ap.NaturalLanguageValues) []nlEntry {
 	return out
 }
 
+// interned texts: equal texts share ONE backing array (as happens when entries are filled from a common table);
+// an operation that writes into an entry's old buffer then shows up in the other entries and in later calls
+var internTab = map[string]ap.Content{}
+
+func intern(t string) ap.Content {
+	c, ok := internTab[t]
+	if !ok || string(c) != t {
+		c = ap.Content(append(make([]byte, 0, len(t)+8), t...)) // spare capacity invites in-place reuse
+		internTab[t] = c
+	}
+	return c
+}
+
 func nlvBuild(es []nlEntry) ap.NaturalLanguageValues {
 	n := make(ap.NaturalLanguageValues, 0, len(es))
 	for _, e := range es {
-		n = append(n, ap.LangRefValue{Ref: ap.LangRef(e.R), Value: ap.Content(e.T)})
+		n = append(n, ap.LangRefValue{Ref: ap.LangRef(e.R), Value: intern(e.T)})
 	}
 	return n
 }
@@ -52,17 +65,17 @@ func c19apply(n *ap.NaturalLanguageValues, op c19op) (res J) {
 		}
 		return J{"k": "text", "t": string(c)}
 	case "Set":
-		if err := n.Set(ap.LangRef(op.R), ap.Content(op.T)); err != nil {
+		if err := n.Set(ap.LangRef(op.R), intern(op.T)); err != nil {
 			return J{"k": "err"}
 		}
 		return J{"k": "ok"}
 	case "Append":
-		if err := n.Append(ap.LangRef(op.R), ap.Content(op.T)); err != nil {
+		if err := n.Append(ap.LangRef(op.R), intern(op.T)); err != nil {
 			return J{"k": "err"}
 		}
 		return J{"k": "ok"}
 	case "Add":
-		n.Add(ap.LangRefValue{Ref: ap.LangRef(op.R), Value: ap.Content(op.T)})
+		n.Add(ap.LangRefValue{Ref: ap.LangRef(op.R), Value: intern(op.T)})
 		return J{"k": "ok"}
 	case "Count":
 		return J{"k": "n", "n": int(n.Count())}
